@@ -114,7 +114,9 @@ class HypercuboidPeriodicBoundaries(PeriodicBoundaries):
         float
             The position entry corrected for periodic boundaries.
         """
-        return position_entry % system_lengths[index]
+        corrected_entry = position_entry % system_lengths[index]
+        # The float modulo of a tiny negative entry rounds to the system length itself which is outside of [0, L).
+        return 0.0 if corrected_entry == system_lengths[index] else corrected_entry
 
     @staticmethod
     def separation_vector(reference_position: Sequence[float],
